@@ -855,7 +855,7 @@ class Executor:
                         continue
                     r = z3.If(V.is_Str(c), z3.Contains(V.get_s(c), V.get_s(i)),
                               z3.If(V.kind_of(V.get_rid(c)) == V.K_DICT, V.map_has(s3.sid(V.get_rid(c)), i),
-                                    V.fresh("in", V.B)))
+                                    V.coll_has(s3.sid(V.get_rid(c)), i)))      # deterministic: two tests of one value agree
                     out.append((s3, r))
             return out
         raise Unsupported("`in` with %s" % type(container).__name__, node)
@@ -2015,7 +2015,7 @@ class Executor:
         raise Unsupported("for loop (engine extension not loaded)", stmt)
 
     def st_While(self, stmt, st):
-        raise Unsupported("while loop", stmt)
+        raise Unsupported("while loop (engine extension not loaded)", stmt)
 
     def st_With(self, stmt, st):
         """`with <expr> [as name]: body` -- the context expression is evaluated (a library call with an external
